@@ -188,6 +188,22 @@ func TestVerifC19Expr(t *testing.T) {
 		if panicked {
 			evalRes = "p"
 		}
+		// the documented dual operator on the same key, values and subject (negation clause,
+		// judged on the implementation's own two answers)
+		dualRes := "x"
+		duals := map[resmgr.Operator]resmgr.Operator{resmgr.In: resmgr.NotIn, resmgr.NotIn: resmgr.In, resmgr.Matches: resmgr.MatchesNot, resmgr.MatchesNot: resmgr.Matches,
+			resmgr.MatchesAny: resmgr.MatchesNone, resmgr.MatchesNone: resmgr.MatchesAny, resmgr.Exists: resmgr.NotExist, resmgr.NotExist: resmgr.Exists}
+		if dop, ok := duals[op]; ok && evalRes != "x" && evalRes != "p" {
+			func() {
+				defer func() {
+					if r := recover(); r != nil {
+						dualRes = "p"
+					}
+				}()
+				de := &resmgr.Expression{Key: e.Key, Op: dop, Values: e.Values}
+				dualRes = vBool(de.Evaluate(c))
+			}()
+		}
 		globTab := []string{}
 		for _, pat := range values {
 			m, _ := filepath.Match(pat, kvVal)
@@ -208,8 +224,8 @@ func TestVerifC19Expr(t *testing.T) {
 			}
 			return strings.Join(l, ",")
 		}
-		fmt.Fprintf(w, "X %s %s %s %s %s %s %s => %s %s %s %s\n", vHex(key), string(op), j(hv), ctrSpec, podSpec, j(subTab), j(globTab),
-			vBool(valid), evalRes, vHex(kvVal), vBool(kvOk))
+		fmt.Fprintf(w, "X %s %s %s %s %s %s %s => %s %s %s %s %s\n", vHex(key), string(op), j(hv), ctrSpec, podSpec, j(subTab), j(globTab),
+			vBool(valid), evalRes, vHex(kvVal), vBool(kvOk), dualRes)
 	}
 	// affinity weights through parseFull
 	weights := []int32{0, 1, -1, 999, 1000, 1001, -1000, -1001, 2147483647, -2147483648, 50000, -50000}
